@@ -166,4 +166,3 @@ func defaultInitPkgs() map[string]bool {
 		"github.com/jackc/puddle/v2":           true,
 	}
 }
-
